@@ -175,6 +175,13 @@ var otherSamples = map[string]string{"uniqueItems": "false", "minProperties": "0
 	"propertyNames": "{}", "dependentRequired": "{}", "if": "{}", "unevaluatedProperties": "true", "not": "false",
 	"dependentSchemas": "{}", "minContains": "0"}
 
+// annotation keywords (title / description / examples are captured as metadata, the others are ignored): they assert
+// nothing, are not "unsupported", and must change neither the conversion outcome nor any verdict.
+var annotationSamples = map[string]string{"title": `"T"`, "description": `"some text"`, "examples": `[1,"a",null,[1]]`,
+	"default": `null`, "$comment": `"c"`, "deprecated": "true", "readOnly": "false", "writeOnly": "false"}
+
+var annotationNames = []string{"title", "description", "examples", "default", "$comment", "deprecated", "readOnly", "writeOnly"}
+
 var otherNames = []string{"uniqueItems", "minProperties", "maxProperties", "propertyNames", "dependentRequired", "if",
 	"unevaluatedProperties", "not"}
 
@@ -244,7 +251,11 @@ func (d *D) json(c *docCtx) string {
 		case "format":
 			add("format", jstr(k.Strs[0]))
 		case "other":
-			add(k.Strs[0], otherSamples[k.Strs[0]])
+			if v, ok := annotationSamples[k.Strs[0]]; ok {
+				add(k.Strs[0], v)
+			} else {
+				add(k.Strs[0], otherSamples[k.Strs[0]])
+			}
 		}
 	}
 	return "{" + strings.Join(kv, ",") + "}"
@@ -535,6 +546,21 @@ func (g *gen) doc(d int) *D {
 	default:
 		out = node(kwT("string"), KW{Name: "other", Strs: []string{hx.Pick(g.r, otherNames)}})
 	}
+	// const / enum next to the type keyword(s) of its own members — the usual way such documents are written
+	if out.Bool == nil && g.r.Chance(30) {
+		for _, name := range []string{"const", "enum"} {
+			if k := out.get(name); k != nil && out.get("type") == nil && out.get("types") == nil {
+				if ts := memberTypes(k.Prims, g.r.Bool()); len(ts) == 1 {
+					out.Kws = append(out.Kws, kwT(ts[0]))
+				} else if len(ts) > 1 {
+					out.Kws = append(out.Kws, KW{Name: "types", Strs: ts})
+				}
+				if g.r.Bool() {
+					out.Kws[0], out.Kws[len(out.Kws)-1] = out.Kws[len(out.Kws)-1], out.Kws[0]
+				}
+			}
+		}
+	}
 	// sibling keywords next to composition / const / enum / ref / a type (class c), and stray keywords
 	if g.r.Chance(14) && out.Bool == nil {
 		t := hx.Pick(g.r, []string{"string", "number", "array", "object"})
@@ -546,6 +572,14 @@ func (g *gen) doc(d int) *D {
 	}
 	if g.r.Chance(3) && out.Bool == nil {
 		out.Kws = dedupKws(append(out.Kws, KW{Name: "other", Strs: []string{hx.Pick(g.r, otherNames)}}))
+	}
+	if g.r.Chance(6) && out.Bool == nil {
+		a := KW{Name: "other", Strs: []string{hx.Pick(g.r, annotationNames)}}
+		if g.r.Bool() {
+			out.Kws = dedupKws(append([]KW{a}, out.Kws...))
+		} else {
+			out.Kws = dedupKws(append(out.Kws, a))
+		}
 	}
 	return out
 }
